@@ -159,6 +159,20 @@ class FusionART(BaseART):
                 self.modules[k].W = []
                 self.modules[k].weight_sample_counter_ = []
 
+    @property
+    def _weight_indices(self) -> List[Tuple[int, int]]:
+        """Positions of each module's weight inside a fused weight vector.
+
+        A module's weight can be longer than its data channel (e.g. a
+        hypersphere stores a radius), so fused weights are split by the
+        lengths of the module weights, not by the channel widths.
+
+        """
+        dims = getattr(self, "_weight_dims", None)
+        if dims is None:
+            return self._channel_indices
+        return get_channel_position_tuples(dims)
+
     @staticmethod
     def validate_params(params: Dict):
         """Validate clustering parameters.
@@ -285,7 +299,7 @@ class FusionART(BaseART):
             *[
                 self.modules[k].category_choice(
                     i[self._channel_indices[k][0] : self._channel_indices[k][1]],
-                    w[self._channel_indices[k][0] : self._channel_indices[k][1]],
+                    w[self._weight_indices[k][0] : self._weight_indices[k][1]],
                     self.modules[k].params,
                 )
                 if k not in skip_channels
@@ -334,7 +348,7 @@ class FusionART(BaseART):
             *[
                 self.modules[k].match_criterion(
                     i[self._channel_indices[k][0] : self._channel_indices[k][1]],
-                    w[self._channel_indices[k][0] : self._channel_indices[k][1]],
+                    w[self._weight_indices[k][0] : self._weight_indices[k][1]],
                     self.modules[k].params,
                     cache[k],
                 )
@@ -384,7 +398,7 @@ class FusionART(BaseART):
             *[
                 self.modules[k].match_criterion_bin(
                     i[self._channel_indices[k][0] : self._channel_indices[k][1]],
-                    w[self._channel_indices[k][0] : self._channel_indices[k][1]],
+                    w[self._weight_indices[k][0] : self._weight_indices[k][1]],
                     self.modules[k].params,
                     cache[k],
                     op,
@@ -586,7 +600,7 @@ class FusionART(BaseART):
         W = [
             self.modules[k].update(
                 i[self._channel_indices[k][0] : self._channel_indices[k][1]],
-                w[self._channel_indices[k][0] : self._channel_indices[k][1]],
+                w[self._weight_indices[k][0] : self._weight_indices[k][1]],
                 self.modules[k].params,
                 cache[k],
             )
@@ -617,6 +631,7 @@ class FusionART(BaseART):
             )
             for k in range(self.n)
         ]
+        self._weight_dims = [len(w_k) for w_k in W]
         return np.concatenate(W)
 
     def add_weight(self, new_w: np.ndarray):
@@ -628,7 +643,7 @@ class FusionART(BaseART):
         """
         self.weight_sample_counter_.append(1)
         for k in range(self.n):
-            new_w_k = new_w[self._channel_indices[k][0] : self._channel_indices[k][1]]
+            new_w_k = new_w[self._weight_indices[k][0] : self._weight_indices[k][1]]
             self.modules[k].add_weight(new_w_k)
 
     def set_weight(self, idx: int, new_w: np.ndarray):
@@ -641,7 +656,7 @@ class FusionART(BaseART):
         """
         self.weight_sample_counter_[idx] += 1
         for k in range(self.n):
-            new_w_k = new_w[self._channel_indices[k][0] : self._channel_indices[k][1]]
+            new_w_k = new_w[self._weight_indices[k][0] : self._weight_indices[k][1]]
             self.modules[k].set_weight(idx, new_w_k)
 
     def get_cluster_centers(self) -> List[np.ndarray]:
